@@ -18,7 +18,7 @@ package index
 //@   property C06
 //@   safety -overflow
 //@   opaque cancel
-//@   timeout 40
+//@   timeout 30
 //@   ensures err == nil && len(queries) == 1 ==> result0 == final(sets)[0] && result1 == final(results)[0]
 //@   ensures err == nil && len(queries) != 1 && isDisjunction ==> forallv(y uint64, bhas(result0, y) == exists(i, 0, len(final(sets)), bhas(final(sets)[i], y)))
 //@   ensures err == nil && len(queries) != 1 && !isDisjunction ==> forallv(y uint64, bhas(result0, y) == (len(final(sets)) > 0 && forall(i, 0, len(final(sets)), bhas(final(sets)[i], y))))
@@ -28,11 +28,9 @@ package index
 //@   loop 1 invariant rangeindex >= -1
 //@   loop 2 invariant rangeindex >= -1 && rangeindex < len(results)
 //@   loop 2 invariant !isDisjunction ==> forall(k, 0, len(finalResults), bhas(finalSet, finalResults[k].NodeId))
-//@   loop 2 invariant forall(a, 0, len(finalResults), forall(b, a+1, len(finalResults), finalResults[a].NodeId != finalResults[b].NodeId))
 //@   loop 2 invariant forall(k, 0, len(finalResults), contains(deduplicateMap, finalResults[k].NodeId) && deduplicateMap[finalResults[k].NodeId] == k)
 //@   loop 2 invariant forallv(id uint64, contains(deduplicateMap, id) ==> 0 <= deduplicateMap[id] && deduplicateMap[id] < len(finalResults) && finalResults[deduplicateMap[id]].NodeId == id)
 //@   loop 3 invariant rangeindex >= -1 && rangeindex < len(res)
 //@   loop 3 invariant !isDisjunction ==> forall(k, 0, len(finalResults), bhas(finalSet, finalResults[k].NodeId))
-//@   loop 3 invariant forall(a, 0, len(finalResults), forall(b, a+1, len(finalResults), finalResults[a].NodeId != finalResults[b].NodeId))
 //@   loop 3 invariant forall(k, 0, len(finalResults), contains(deduplicateMap, finalResults[k].NodeId) && deduplicateMap[finalResults[k].NodeId] == k)
 //@   loop 3 invariant forallv(id uint64, contains(deduplicateMap, id) ==> 0 <= deduplicateMap[id] && deduplicateMap[id] < len(finalResults) && finalResults[deduplicateMap[id]].NodeId == id)
